@@ -341,7 +341,18 @@ type keysByName struct {
 }
 
 func (s keysByName) Len() int           { return len(s.names) }
-func (s keysByName) Less(i, j int) bool { return s.names[i] < s.names[j] }
+func (s keysByName) Less(i, j int) bool {
+	if s.names[i] != s.names[j] {
+		return s.names[i] < s.names[j]
+	}
+	// distinct keys of an interface-keyed map that spell the same name (a string and a
+	// value of a named string type): ordered by their types
+	return keyTypeName(s.keys[i]) < keyTypeName(s.keys[j])
+}
+
+func keyTypeName(k reflect.Value) string {
+	return chaseValueInterfaces(k).Type().String()
+}
 func (s keysByName) Swap(i, j int) {
 	s.names[i], s.names[j] = s.names[j], s.names[i]
 	s.keys[i], s.keys[j] = s.keys[j], s.keys[i]
